@@ -35,6 +35,8 @@ def instances(tier, seed):
         extra=True, cost=6)
     add("repl:(1,3,1):improper-sym", dims=(1, 3, 1), N=2, symkind='improper', kinds=['improper'], cost=10)
     add("repl:(2,1,1):angle-sym", dims=(2, 1, 1), N=3, symkind='angle', kinds=['angle', 'bond'], cost=10)
+    add("repl:(2,1,1):history:failed-extend-elsewhere", dims=(2, 1, 1), N=2, symkind='bond', kinds=['bond'], history='failed-extend-elsewhere', cost=5)
+    add("repl:(1,2,2):history:failed-extend-elsewhere", dims=(1, 2, 2), N=3, symkind=None, kinds=['bond', 'angle'], history='failed-extend-elsewhere', cost=5)
     add("repl:(1,1,2):no-terms", dims=(1, 1, 2), N=2, symkind=None, kinds=[], cost=1)
     if tier == 'thorough':
         for t in [(2, 2, 2), (1, 3, 4), (4, 1, 3), (2, 3, 2), (3, 2, 1), (1, 1, 5)]:
@@ -67,6 +69,16 @@ def body(ctx, p):
     cell = [[ctx.real(f"c{r}{c}", -30, 30) for c in range(3)] for r in range(3)]
     a.cell = ctx.arr(cell) if ctx.sym else np.array(cell, dtype=float)
     before = spec_from_state(a)
+    if p.get('history') == 'failed-extend-elsewhere':
+        # HISTORY: earlier in the process an extend() on UNRELATED objects failed part-way (a fragment whose bond names an atom the fragment
+        # does not have) and the caller caught the error; nothing of that may leak into later calls on other objects
+        Atoms = ctx.ms.Atoms
+        junk = Atoms(elements=['He', 'Ne'], positions=[(0., 0., 0.), (1., 1., 1.)])
+        bad = Atoms(elements=['Ar', 'Kr', 'Xe'], positions=[(2., 0., 0.), (3., 1., 1.), (4., 1., 0.)], bonds=[(0, 5)], bond_types=[0])
+        try:
+            junk.extend(bad)
+        except Exception:
+            pass
     r = a.replicate(dims)
     with core.nosimplify():
         check(ctx, p, a, sp, before, cell, r, dims)
